@@ -17,6 +17,9 @@ import (
 type Session struct {
 	Steps []Case `json:"steps"`
 	Also  []Case `json:"also,omitempty"` // declare operations / media types of the description; not executed
+	// Fresh: every step gets a new server instance and a new client.Runtime (only the process is
+	// shared); what is checked then is that values delivered by earlier steps stay what they were.
+	Fresh bool `json:"fresh,omitempty"`
 }
 
 func (s *Session) all() []*Case {
@@ -120,14 +123,31 @@ func checkSession(s *Session, baseline func(i int) (verdict, string)) (verdict, 
 	if baseline == nil {
 		baseline = s.alone
 	}
-	srv, err := buildServer(s.all())
-	if err != nil {
-		return verdict{class: "harness-error", what: err.Error(), outcome: "harness-error"}, 0, nil
+	var srv *server
+	var cl *clientSide
+	var err error
+	if !s.Fresh {
+		srv, err = buildServer(s.all())
+		if err != nil {
+			return verdict{class: "harness-error", what: err.Error(), outcome: "harness-error"}, 0, nil
+		}
+		cl = newClientSide(s.Steps[0].Base)
 	}
-	cl := newClientSide(s.Steps[0].Base)
 	var out []stepResult
+	keep := &keeper{}
 	for i := range s.Steps {
 		c := &s.Steps[i]
+		if s.Fresh {
+			if len(s.Also) > 0 {
+				srv, err = buildServer(s.all())
+			} else {
+				srv, err = buildServer([]*Case{c})
+			}
+			if err != nil {
+				return verdict{class: "harness-error", what: err.Error(), outcome: "harness-error"}, i, out
+			}
+			cl = nil
+		}
 		res, herr := execute(srv, cl, c)
 		if herr != nil {
 			return verdict{class: "harness-error", what: herr.Error(), outcome: "harness-error"}, i, out
@@ -138,7 +158,12 @@ func checkSession(s *Session, baseline func(i int) (verdict, string)) (verdict, 
 		if v.class == "" && len(v.outcome) >= 17 && v.outcome[:17] == "outside-guarantee" {
 			continue
 		}
-		av, aobs := baseline(i)
+		av, aobs := verdict{}, obs
+		if !s.Fresh {
+			av, aobs = baseline(i)
+		} else if v.class != "" {
+			av = v // every step of a fresh-instance session is alone already
+		}
 		switch {
 		case v.class != "" && av.class == v.class:
 			// the step fails in the same way on a fresh instance: not a matter of the history
@@ -155,6 +180,15 @@ func checkSession(s *Session, baseline func(i int) (verdict, string)) (verdict, 
 			v.outcome = "in-sequence-observation-differs"
 			return v, i, out
 		}
+		// values delivered by this and by earlier steps must stay what they were at delivery
+		keep.keepResult(i, &res)
+		if kv := keep.changed(); kv != nil {
+			v.class = "in-sequence/kept-value-changed-later"
+			v.what = fmt.Sprintf("the %s in step %d [%s] was %s when it was delivered and is %s after step %d [%s]",
+				kv.label, kv.step+1, stepLabel(&s.Steps[kv.step]), show(kv.snap), show(kv.live), i+1, stepLabel(c))
+			v.outcome = "in-sequence-kept-value-changed"
+			return v, i, out
+		}
 	}
 	return verdict{}, -1, out
 }
@@ -168,6 +202,9 @@ func orOK(v verdict) string {
 
 func stepLabel(c *Case) string {
 	l := c.Method + " " + c.Template + " " + c.Consumes + "->" + c.Produces
+	if c.Resp.Dest != "" {
+		l += "(" + c.Resp.Dest + ")"
+	}
 	if c.Auth {
 		m := c.AuthMode
 		if m == "" {
